@@ -22,13 +22,16 @@ EXTRA = {
 	'C14': HIST + " EIL approximation: reported cost = equation (5.16) of the returned pair; low-mean corpus for the exact algorithm.",
 	'C11': " Call histories: one instance solved again with exactly one argument changed, every call compared with the model.",
 	'C04': " Echelon base-stock nodes are also exercised in distribution systems (several downstream-most nodes).",
-	'C06': " The order-follows-policy predicate, the release of withheld units after a shipment pause and order-pipeline conservation are part of the predicates evaluated on every real trajectory.",
+	'C06': " Props/NetSeq.lean: orderSeq_nodup, shipSeq_nodup (no node is processed twice in a phase - for every network, unconditionally) and visitOK_iff. The order-follows-policy predicate, the cost re-pricing predicate, the release of withheld units after a shipment pause and order-pipeline conservation are part of the predicates evaluated on every real trajectory.",
 	'C03': " On every edge into a TP/RP node the edge-flow identity (nothing lost while a pause delays a shipment) is evaluated.",
 	'C08': " External inbound times at inner stages; a pre-processed tree edited before solving equals the edited instance built afresh.",
 	'C15': " One-object workflow: analysis with network=, conversion, installation by index (and Policy objects moved from a simulated pilot system), simulation - identical to the same levels on a fresh copy.",
 	'C16': " Distributions handed out earlier are re-queried after later requests.",
 	'C17': " Simulated networks are saved through every exit of save_instance (incl. the documented no-ops) and their state variables compared.",
 	'C18': " Serial systems stored in four construction orders for the level conversions.",
+	'C01': " An order-override stream (orders forced through step(order_quantity_override=...), above and below the policy quantity) evaluates every balance on the real trajectory; multi-product networks also check order-pipeline conservation per raw material.",
+	'C02': " Multi-product networks: per-product cumulative demand, demand met from stock and fill rate.",
+	'C05': " run_multiple_trials is also run with 30 trials on instances where a per-trial seed repeats.",
 	'C20': " Non-scalar defaults of the node normalisers; random nested dicts for the key rewriters (reference implementations, no sharing with the argument).",
 }
 for pid_, extra_ in EXTRA.items():
